@@ -37,7 +37,8 @@ CHECKS = {
         "a new or arriving directory ends the record's path as a key of the watch map (or leaves through the add-watch "
         "failure edge), renamed directories and their watched descendants are re-keyed, IGNORED prunes, and no watch is "
         "installed under a non-recursive watch; plus the initial recursive installation. That the kernel's watches equal the "
-        "map is not decided.",
+        "map is not decided. "
+        "Also: no loop of the reader or of the initial installation mutates the container it iterates (a pruned listing must be iterated through a copy).",
         ref="§3/C02",
     ),
     "C03": dict(
@@ -45,7 +46,8 @@ CHECKS = {
         text="Static analysis. All paths of InotifyEmitter.queue_events (both modes) are compared with a per-native-kind "
         "contract (classes, order, multiplicity, Dir/File flavour, path roles); the set of constructor calls that mark an "
         "event synthetic is compared with the sub-event generators; a watch release must be reachable when a directory "
-        "leaves the tree. Soundness of every event over whole histories is not decided.",
+        "leaves the tree. Soundness of every event over whole histories is not decided. "
+        "Also: no kernel watch is installed by the reader where the recursive flag is false (events from below a non-recursive watch's children are outside its scope; row shared with C02).",
         ref="§3/C03",
     ),
     "C04": dict(
@@ -54,13 +56,15 @@ CHECKS = {
         "made with the observer lock held in every calling context from a public entry point; the dispatch loop iterates a "
         "snapshot keyed by the dequeued watch, re-checks membership against the live registry, under the lock, one dispatch "
         "per iteration; every producer enqueues (event, own watch). Exactly-once as a trace property over schedules follows "
-        "only together with RLock/queue.Queue semantics, which are trusted.",
+        "only together with RLock/queue.Queue semantics, which are trusted. "
+        "Also: unschedule_all() empties the handler registry wholesale on every normal path (instance shared with C05).",
         ref="§3/C04",
     ),
     "C05": dict(
         technique="lock-alias analysis + interprocedural must-effect analysis (class-specialised path enumeration)",
         text="Static analysis. Registry removals and the dispatch site hold the same lock object; the re-check reads the live "
-        "registry; on every normal path unschedule/unschedule_all/stop reach stop() and then join() of the affected emitter(s).",
+        "registry; on every normal path unschedule/unschedule_all/stop reach stop() and then join() of the affected emitter(s). "
+        "Also: unschedule_all() empties the handler registry wholesale (clear / fresh container / loop over the registry's own keys), not only the entries of the scheduled watches or of the emitter map.",
         ref="§3/C05",
     ),
     "C06": dict(
@@ -78,7 +82,8 @@ CHECKS = {
         "controlled values; add-watch / read / stat failures) escapes a library thread body that processes filesystem input; "
         "root-deletion branches emit exactly one DirDeletedEvent(root) and stop, and the root keeps its spelling from watch.path to the map key "
         "the emitter compares with; a field the stopping thread clears is read once in the thread body; absorbed failures keep the triggering record. "
-        "Completeness of the fallible table is assumed.",
+        "Completeness of the fallible table is assumed. "
+        "Also: no KeyError from a look-up on the observer's registry maps can escape the dispatcher thread's body (plain dict without a membership test since the last callback).",
         ref="§3/C07",
     ),
     "C08": dict(
@@ -86,7 +91,8 @@ CHECKS = {
         text="Static analysis. On every path of _group_events each native record is placed exactly once (alone or as the second "
         "half of a pair whose first half is removed from where it was); every grouped element reaches exactly one put, only an "
         "unmatched MOVED_FROM is delayed; the partner predicate requires non-tuple, MOVED_FROM and cookie equality. Pairing "
-        "within the delay (clock values) is not decided.",
+        "within the delay (clock values) is not decided. "
+        "Also: no iteration of the hand-over loop leaves it (the rest of the read batch would never be handed over).",
         ref="§3/C08",
     ),
     "C10": dict(
@@ -101,7 +107,8 @@ CHECKS = {
         text="Static analysis that is close to exhaustive for this property: for every class of the event lattice, the kernel "
         "flags the translation needs for that class (derived from the emitter's paths, both modes) and the flags the reader's "
         "bookkeeping needs (derived from read_events) must be contained in what get_event_mask_from_filter provides for that "
-        "class (abstractly evaluated, masks folded to integers).",
+        "class (abstractly evaluated, masks folded to integers). "
+        "Also: what InotifyEmitter.queue_events hands to queue_event does not depend on the filter (paths differing only in a filter-dependent condition emit alike, except events of exactly the tested class).",
         ref="§3/C11",
     ),
     "C12": dict(
@@ -168,7 +175,8 @@ CHECKS = {
         "_decode_path(native path) (or dirname of it, or the empty literal); _decode_path is conditional on the watch path type; "
         "Path is normalised to str once; polling paths derive from join(root, entry.name); the watch key carries the stored path itself "
         "(str and bytes spellings are different watches). Round-tripping of undecodable names "
-        "is a property of os.fsdecode and is trusted.",
+        "is a property of os.fsdecode and is trusted. "
+        "Also: the reader's re-key / prune rows (shared with C02): a native path is a wd->path look-up, so the table is updated before the next record of the read is resolved.",
         ref="§3/C19",
     ),
     "C20": dict(
